@@ -383,10 +383,36 @@ func genVectorCases2(r *rand.Rand) []Case {
 	return out
 }
 
+// genVectorCases3: the third set (format3.json) — struct keys under the default and under a CUSTOM
+// marshaler (order and layer come from the configured marshaled form), pointer values that may be nil.
+func genVectorCases3(r *rand.Rand) []Case {
+	var out []Case
+	for _, bf := range allBF {
+		for _, kv := range [][3]string{{"skc", "u64", "bin"}, {"sk", "u64", "bin"}, {"sk", "np", "json"}, {"vk", "np", "bin"}, {"u64", "np", "json"}, {"skc", "np", "bin"}} {
+			cfg := Cfg{BF: bf, Fmt: kv[2], KK: kv[0], VKind: kv[1], Cache: "none"}
+			uni := Universe(r, cfg, 20+r.Intn(20))
+			ops := []string{"new 0"}
+			for i, k := range uni {
+				ops = append(ops, opIns(0, k, uint64(i%4)))
+				if i%9 == 8 {
+					ops = append(ops, fmt.Sprintf("roots 0 %d", i))
+				}
+			}
+			ops = append(ops, "roots 0 999", "load 999 1", "iter 1", "stat 1")
+			out = append(out, Case{cfg, ops})
+		}
+	}
+	return out
+}
+
 func writeVectors2(path string, seed int64) {
 	r := rand.New(rand.NewSource(seed))
 	var vs []Vector
-	for _, c := range genVectorCases2(r) {
+	gen := genVectorCases2
+	if strings.HasSuffix(path, "format3.json") {
+		gen = genVectorCases3
+	}
+	for _, c := range gen(r) {
 		s := NewSession(c.Cfg)
 		v := Vector{Case: c}
 		for _, line := range c.Ops {
@@ -422,7 +448,7 @@ func famFormat(f *FamCtx) {
 	f.Gen = func() Case { return genFormatCase(f.Rand) }
 	// vectors first
 	nvec := 0
-	for _, file := range []string{"format.json", "format2.json"} {
+	for _, file := range []string{"format.json", "format2.json", "format3.json"} {
 		b, err := os.ReadFile(filepath.Join(vectorsDir(), file))
 		if err != nil {
 			f.Report.Findings = append(f.Report.Findings, Finding{Family: "format", Property: "C14", Note: "frozen vectors missing: " + err.Error()})
